@@ -352,3 +352,10 @@ package keeper
 //@   pure
 //@   ensures @stored_record err == nil ==> blkHas(wrk_store, req.WrkchainId, req.Height) && blkGet(wrk_store, req.WrkchainId, req.Height) == deref(resp.Block)
 //@   ensures @of_that_chain err == nil ==> wcHas(wrk_store, req.WrkchainId) && resp.Owner == wcGet(wrk_store, req.WrkchainId).Owner && resp.WrkchainId == wcGet(wrk_store, req.WrkchainId).WrkchainId
+
+// ================================================================ upgrade: parameter migration (C16) - hands the module store to v3.Migrate
+//@ func Migrator.Migrate2to3(ctx) (err)
+//@   props C16
+//@   modifies wrk_store
+//@   ensures @only_the_parameter_key err == nil ==> wrk_store == wrkParamsPut(old(wrk_store), wrkParams(wrk_store))
+//@   ensures @rejected_changes_nothing err != nil ==> wrk_store == old(wrk_store)
